@@ -1,7 +1,8 @@
 import CbiVerif.Model.Setmap
 /-!
-C06 — model of `codebasin/coverage/__main__.py:_compute`: for every code-base file (symlinks
-included: each enumerated path gets its own record) the counted lines of its nodes are split
+C06 — model of `codebasin/coverage/__main__.py:_compute`: for every code-base file that is not a
+symbolic link (an enumerated link always resolves to a member, which gets its own record; links are
+skipped like in `get_setmap`, `FileTree` and `find_duplicates`) the counted lines of its nodes are split
 into `used_lines` (the node is associated with some platform) and `unused_lines`
 (`association[node] == frozenset([])`), by `list.extend` in `tree.walk()` order.
 The content hash (`hashlib.file_digest(f, "sha512")`) is outside the model; the harness recomputes it.
@@ -21,7 +22,8 @@ def split (ns : List NodeRec) : Split :=
                        else { s with used := s.used ++ n.lines }) ⟨[], []⟩
 
 /-- one record of the export: (path components, used, unused) -/
-def compute (fs : List FileRec) : List (List String × Split) := fs.map fun f => (f.path, split f.nodes)
+def compute (fs : List FileRec) : List (List String × Split) :=
+  (fs.filter fun f => !f.link).map fun f => (f.path, split f.nodes)
 
 /-- all counted lines of a file, in node order -/
 def fileLines (ns : List NodeRec) : List Nat := ns.flatMap (·.lines)
